@@ -1126,6 +1126,104 @@ func c03RunChain(co *caseOut, in c03Input, r *rng) {
 				return
 			}
 			refused++
+			// the refused block's batch stays applied on the module's side until the next block: reads at the LATEST
+			// root (and the one before, where retained) through the accessors the RPC server uses and through the RPC
+			// handlers must answer from the storage of that height alone
+			hh := bc.BlockHeight()
+			for back := uint32(0); back <= 1 && back <= hh; back++ {
+				if back == 1 && (in.Cfg == "latest" || in.Cfg == "gc") {
+					break
+				}
+				rec := recs[hh-back]
+				at := func(m map[string]any) map[string]any {
+					m["height"], m["latest"], m["refused_batch"] = hh-back, back == 0, blk.Drop
+					return m
+				}
+				note := "while a refused block's MPT batch is pending: "
+				dumpS := c03Sorted(rec.dump)
+				var kvs []storage.KeyValue
+				var ferr error
+				if p := catch(func() { kvs, ferr = sm.FindStates(rec.root, []byte{}, nil, 1<<20) }); p != "" || ferr != nil {
+					viol(note+"FindStates at a stored root fails", at(map[string]any{"error": fmt.Sprint(p, ferr)}))
+					return
+				}
+				var got []c03KV
+				for _, kv := range kvs {
+					got = append(got, c03KV{kv.Key, kv.Value})
+				}
+				if !c03EqKVs(got, dumpS) {
+					viol(note+"FindStates at a stored root differs from the contract storage of that height", at(map[string]any{"trie_pairs": len(got), "storage_pairs": len(dumpS)}))
+					return
+				}
+				var keys [][]byte
+				for _, pr := range blk.Drop {
+					keys = append(keys, unhx(pr[0]))
+				}
+				for i := 0; i < len(dumpS); i += len(dumpS)/6 + 1 {
+					keys = append(keys, dumpS[i].K)
+				}
+				for _, k := range keys {
+					if len(k) < 4 {
+						continue
+					}
+					want, present := rec.dump[string(k)]
+					// prefix ranges around the key
+					for _, pl := range []int{4, len(k) - 1, len(k)} {
+						if pl < 4 || pl > len(k) {
+							continue
+						}
+						var wq, gq []c03KV
+						for _, kv := range dumpS {
+							if bytes.HasPrefix(kv.K, k[:pl]) {
+								wq = append(wq, kv)
+							}
+						}
+						fk, ferr := sm.FindStates(rec.root, k[:pl], nil, 1<<20)
+						for _, kv := range fk {
+							gq = append(gq, c03KV{kv.Key, kv.Value})
+						}
+						if (ferr != nil && !errors.Is(ferr, mpt.ErrNotFound)) || !c03EqKVs(gq, wq) {
+							viol(note+"FindStates with a prefix at a stored root differs from the range query on the storage of that height",
+								at(map[string]any{"prefix": hx(k[:pl]), "got": c03ShowKVs(gq), "want": c03ShowKVs(wq), "error": fmt.Sprint(ferr)}))
+							return
+						}
+					}
+					v, e1 := sm.GetState(rec.root, k)
+					var pv []byte
+					ok := false
+					var e2 error
+					if in.Cfg != "latest" {
+						var proof [][]byte
+						if proof, e2 = sm.GetStateProof(rec.root, k); e2 == nil {
+							pv, ok = mpt.VerifyProof(rec.root, k, proof)
+						}
+					}
+					if present && (e1 != nil || !bytes.Equal(v, want) || (in.Cfg != "latest" && (!ok || !bytes.Equal(pv, want)))) {
+						viol(note+"GetState / GetStateProof at a stored root do not give the value stored at that height",
+							at(map[string]any{"key": hx(k), "want": hx(want), "got": hx(v), "get_error": fmt.Sprint(e1), "proof_error": fmt.Sprint(e2), "proved": hx(pv), "verifies": ok}))
+						return
+					}
+					if !present && (e1 == nil || ok) {
+						viol(note+"a key absent at that height is readable or provable at its stored root",
+							at(map[string]any{"key": hx(k), "got": hx(v), "proved": hx(pv), "verifies": ok}))
+						return
+					}
+					// the RPC handler (contract hash + contract-relative key)
+					id := int32(binary.LittleEndian.Uint32(k[:4]))
+					if hash, herr := bc.GetContractScriptHash(id); herr == nil {
+						res, em := rpc.do("getstate", rec.root.StringLE(), hash.StringLE(), c03B64(k[4:]))
+						var gv []byte
+						if em == "" {
+							_ = json.Unmarshal(res, &gv)
+						}
+						if (present && (em != "" || !bytes.Equal(gv, want))) || (!present && em == "") {
+							viol(note+"RPC getstate at a stored root does not answer from the storage of that height",
+								at(map[string]any{"key": hx(k), "present": present, "want": hx(want), "got": hx(gv), "error": em}))
+							return
+						}
+					}
+				}
+			}
 		}
 		if p := catch(func() { c.e.AddNewBlock(c.t, txs...) }); p != "" {
 			viol(fmt.Sprintf("block %d (op %d) rejected: %s", bc.BlockHeight()+1, bi, p), map[string]any{"height": bc.BlockHeight() + 1})
